@@ -7,6 +7,9 @@ NOTE_COMMON = ("Trusts go/packages+go/ssa, the engine's instruction semantics, t
                "(differentially tested against the real functions), and the SMT solvers; every counterexample and a sample of "
                "witnesses per run are replayed against the real build (go test -overlay) and their observations compared.")
 claimed = {
+ "C04": dict(
+   text="Bounded symbolic model checking of NewDateRangeWithString, Date.String/DateRange.String/DateNode.String on the real SSA (the repo's own regular expressions run through a ported backtracking matcher): every keyword spelling x letter case x month spelling x shape x range form is an outer case and all day and year digits are solver variables, so each case covers every day 0..99 and every year 1..9999 at once. The solver proves that in-grammar sentences parse to the fields as written (both range ends), that calendar-impossible days and undocumented forms are invalid, that printing gives the canonical spelling and that re-parsing gives the same start and end.",
+   ref="DESIGN.md §3 C04", note=NOTE_COMMON),
  "C05": dict(
    text="Bounded symbolic model checking of Date.Time, Date.Years, IsBefore/IsAfter and DateRange.Duration on the real SSA: day, month and year are solver variables, so each granularity is one symbolic run over all 3,652,059 days / 119,988 months / 9,999 years. The solver proves start = 00:00 of the first day, end = last nanosecond of the last day, the calendar length (leap rule included), strict day-to-day monotonicity and containment of Years, and before/after = calendar order for two independent dates.",
    ref="DESIGN.md §3 C05", note="float64 is abstracted soundly (reals + uninterpreted monotone rounding with relative error 2^-53); calendar lemmas used by the time model (ordering of day numbers, successor/predecessor closed forms) are validated exhaustively by the self-test. " + NOTE_COMMON),
